@@ -332,6 +332,65 @@ def prefilter(ctx, res):
             viol("silent-path", tr[fi][4],
                  "a successful assignment ends without call_notifiers "
                  "although no documented gate is false on the path", p)
+    # ---------------- setattr_trait, deletion branch ----------------------
+    no_notify = facts.macro_int("HASTRAITS_NO_NOTIFY")
+    n_del = 0
+    for p in paths:
+        sc = SetterScan(p, valuep, traitd)
+        if sc.branch != "delete":
+            continue
+        tr = p.trace
+        di = [i for i, it in enumerate(tr) if it[0] == "call"
+              and it[1] == "PyDict_DelItem"]
+        if not di:
+            continue
+        after = tr[di[-1] + 1:]
+        if any(it[0] == "atom" and it[2] is True and split_cmp(it[1], "<")
+               and split_cmp(it[1], "<")[0].startswith("PyDict_DelItem(")
+               for it in after):
+            continue            # the deletion itself failed
+        n_del += 1
+        old_t = f"PyDict_GetItem({objp}->obj_dict, {namep})"
+        newv = [it[3] for it in after if it[0] == "call"
+                and it[1] == "->getattr"]
+        notes = [it for it in after if it[0] == "call"
+                 and it[1] == "call_notifiers"]
+        for it in notes:
+            if it[2][4] != old_t:
+                viol("delete:old-arg", it[4],
+                     f"deletion notifies with old=`{it[2][4][:60]}` instead "
+                     f"of the value that was stored", p)
+            if not newv or it[2][5] != newv[0]:
+                viol("delete:new-arg", it[4],
+                     f"deletion notifies with new=`{it[2][5][:60]}` instead "
+                     f"of the value now readable (the default)", p)
+        for a in after:
+            if a[0] != "atom" or not isinstance(a[2], bool):
+                continue
+            t = a[1]
+            ok = (t == f"({no_notify} & {objp}->flags)"
+                  or (split_cmp(t, "<") and split_cmp(t, "<")[0].startswith(
+                      "PyDict_DelItem("))
+                  or "->notifiers" in t
+                  or (newv and null_test(t, a[2], newv[0]) is not None)
+                  or t == mode_atom
+                  or (newv and split_cmp(t, "!=")
+                      and set(split_cmp(t, "!=")) == {old_t, newv[0]})
+                  or _gate_category(t, traitd, mode_atom,
+                                    newv[0] if newv else "?") in (
+                      "post-present", "rc", "has-notifiers"))
+            if not ok:
+                viol(f"delete:unexpected-gate:{_abbr(t)}",
+                     g.nodes[a[3]].line,
+                     f"after deleting the stored value, control depends on "
+                     f"`{t[:110]}`, which is not one of the documented gates "
+                     f"of notification (notifications enabled, presence of "
+                     f"notifiers, comparison mode / identity of old and the "
+                     f"default, post_setattr result)", p)
+    res.instance(f"{fname}:delete", facts.loc(facts.func(fname)),
+                 deleting_paths=n_del)
+    if n_del == 0:
+        raise AnalysisError("setattr_trait: deletion branch not recognised")
     res.instance(f"{fname}:assign", facts.loc(facts.func(fname)),
                  notifying_paths=n_notify, silent_paths=n_silent)
     if n_notify == 0 and not seen:
@@ -406,7 +465,7 @@ def prefilter(ctx, res):
                        "instance dict (it would be recomputed on each read)",
                        _plines(p))
     res.instance(fname, facts.loc(facts.func(fname)), notifying_paths=n)
-    res.floor(3)
+    res.floor(4)
 
 
 def _abbr(t):
@@ -436,3 +495,53 @@ def _gate_category(t, traitd, mode_atom, V):
     if sp and sp[1] == "0" and sp[0].startswith("PyDict_SetItem("):
         return "store-result"
     return None
+
+
+@rule("C04.ctrait-validate", ["C04", "C01"],
+      "CTrait.validate (the entry every container element validator goes "
+      "through) runs the trait's validator for every value whenever one is "
+      "set, and returns its result")
+def ctrait_validate(ctx, res):
+    paths, facts, g = paths_of(ctx, "_trait_validate")
+    params = [p.name for p in facts.params("_trait_validate")]
+    traitp = params[0]
+    n = 0
+    for p in paths:
+        if p.outcome[0] != "RETURN" or p.outcome[1] == "0":
+            continue
+        n += 1
+        rv = p.outcome[1]
+        has_validator = None
+        for t, truth, _ in p.atoms:
+            nt = null_test(t, truth, f"{traitp}->validate")
+            if nt is not None:
+                has_validator = not nt
+        calls = [e for e in p.events if e[0] == "->validate"]
+        key = "_trait_validate"
+        if has_validator is False:
+            res.oblige(not calls, key + ":no-validator",
+                       f"{CREL}:{p.lines[-1]}", "validator called although "
+                       "none is set")
+            continue
+        ok = bool(calls) and rv == calls[-1][2]
+        res.oblige(ok, key + ":validated", f"{CREL}:{p.lines[-1]}",
+                   f"a path of CTrait.validate returns `{rv[:60]}` without "
+                   f"(the result of) `{traitp}->validate(...)` although a "
+                   f"validator is set: some values bypass validation when "
+                   f"used as container elements",
+                   _plines(p))
+        # only the NULL test of the validator may select the bypass
+        extra = [t for t, truth, _ in p.atoms
+                 if null_test(t, truth, f"{traitp}->validate") is None
+                 and not t.startswith("PyArg_ParseTuple(")]
+        res.oblige(not extra, key + ":unexpected-gate",
+                   f"{CREL}:{p.lines[-1]}",
+                   f"CTrait.validate depends on `{extra[0][:80] if extra else ''}`"
+                   f": validation must not be skipped for particular values",
+                   _plines(p))
+    res.instance("_trait_validate", facts.loc(facts.func("_trait_validate")),
+                 returning_paths=n)
+    if n < 2:
+        raise AnalysisError("_trait_validate: accepting paths not recognised")
+    # the argument order handed to the validator: (trait, object, name, value)
+    res.floor(1)
